@@ -32,6 +32,24 @@ Proof.
   - intros c [].
 Qed.
 
+(* Replace (since /repo e28c215) copies the requests of a "*" callback only *)
+Lemma last_live_named_in : forall cs n o, last_live_named cs n = Some o -> In o cs.
+Proof.
+  induction cs as [|c cs IH]; intros n o; cbn; [discriminate|].
+  destruct (last_live_named cs n) as [x|] eqn:E.
+  - intros [= <-]. right. eapply IH; eauto.
+  - destruct (String.eqb (cb_name c) n && negb (cb_remove c)); [|discriminate]. intros [= <-]. left. reflexivity.
+Qed.
+
+Lemma replace_fields_nostar : forall cs s,
+  (forall c, In c cs -> nostar c) -> replace_fields cs s = (st_before s, st_after s).
+Proof.
+  intros cs s H. unfold replace_fields.
+  destruct (is_none (st_before s) && is_none (st_after s)); [|reflexivity].
+  destruct (last_live_named cs (st_name s)) as [o|] eqn:E; [|reflexivity].
+  destruct (H o (last_live_named_in _ _ _ E)) as [A B]. now rewrite A, B.
+Qed.
+
 (* ------------------------------------------------------------------ the simple procedure *)
 Definition simple_before (sorted : list string) (c : cb) : option (list string) :=
   if is_none (cb_before c) then Some sorted
